@@ -79,7 +79,7 @@ CLAIMS = {
          'characterisation is); logs are not examined.',
  'technique': 'Coq proof: every denial of every run is assembled from an explicit list of public expressions (no secret, verifier or token among their inputs); OK adds only the configured token '
               'headers; correspondence: lock-step replay + marker scan of every answer under 10 encodings',
- 'text': 'Machine-checked: C14_denials_are_public, C14_ok_adds_only_tokens. Tie to the code on every run: the REAL handler of the current tree is driven over generated histories with spying wrappers '
+ 'text': 'Machine-checked: C14_denials_are_public, C14_public_material_ignores_secrets, C14_ok_adds_only_tokens. Tie to the code on every run: the REAL handler of the current tree is driven over generated histories with spying wrappers '
          'around the real stores (memory, Redis/miniredis), key provider, generator, clock and a loopback token endpoint; every effect with its arguments and every response are recorded, the Coq '
          "model is replayed in lock-step on the recorded answers (any difference in effects, their order, their arguments or the projected response is a correspondence failure) and the property's "
          "monitor is evaluated on the implementation's own trace by coqc (vm_compute). Every credential of a history is a unique marker; each answer's status message, headers and body are scanned "
@@ -157,7 +157,7 @@ CLAIMS = {
               'share, distinct settings get distinct objects (pool key injective), rotation reaches the pooled object at the next tick, a watcher is stopped only by a re-registration of the same settings; refutation witness for the old key; '
               ' correspondence: real pool + watcher + NewHTTPClient judged by real TLS handshakes against loopback servers of throw-away CAs',
  'text': 'PARTIAL (decision and bookkeeping logic proved; X.509, handshake and timers are runtime facts exercised by the correspondence run). Machine-checked: C20_trust_matches_config, '
-         'C20_skip_only_if_requested_and_no_ca, C20_identical_settings_share, C20_distinct_settings_distinct, C20_rotation, C20_superseded_watcher_stops, C20_other_settings_do_not_stop_a_watcher (+ Examples C20_old_pool_key_collides, '
+         'C20_skip_only_if_requested_and_no_ca, C20_identical_settings_share, C20_distinct_settings_distinct, C20_rotation, C20_rotation_all_histories (invariant of every reachable pool state: a rewritten CA file reaches the pooled object of every settings watching it, for all histories), C20_superseded_watcher_stops, C20_other_settings_do_not_stop_a_watcher (+ Examples C20_old_pool_key_collides, '
          'C20_two_settings_one_file_both_follow). Tie to the code on every run: 6 designed scenarios (colliding concatenations, identical settings, single-watcher rotation A->B->A, two settings '
          'on one file, every spelling of skip_verify) and 40 random sequences of loads / CA-file rewrites / waits of ten intervals against the real pool and watcher; after every step every client '
          'built by NewHTTPClient at load time opens NEW connections to the TLS servers of CA A and CA B; load results (nil / error / object identity) and handshake outcomes are compared with the '
